@@ -171,7 +171,8 @@ def link_evaluator(ctx):
     for q in ("pyab_experiment.utils.wraper_functions.parse_source", "pyab_experiment.utils.wraper_functions.generate_code",
               "pyab_experiment.experiment_evaluator.ParseError.__init__", "pyab_experiment.experiment_evaluator.ExperimentEvaluator.__init__",
               "pyab_experiment.experiment_evaluator.ExperimentEvaluator.recompile", "pyab_experiment.experiment_evaluator.ExperimentEvaluator.run_experiment",
-              "pyab_experiment.experiment_evaluator.ExperimentEvaluator.__call__"):
+              "pyab_experiment.experiment_evaluator.ExperimentEvaluator.__call__",
+              "pyab_experiment.codegen.python.custom_exceptions.ExperimentConditionalFailedError.__init__"):
         out += reg.contracts[q].verify()
     from vcore import native
 
@@ -500,7 +501,9 @@ class C06(Prop):
         return [contract_canary("lexer-error-skips", "pyab_experiment.language.lexer.ExperimentLexer.error", "raise LexError(", "print(", r"ensures\.illegal-character"),
                 contract_canary("parser-error-prints", "pyab_experiment.language.grammar.ExperimentParser.error", "raise YaccError('Parse error in input. EOF')", "return None", r"ensures\.syntax-error"),
                 table_canary("ignored-rule-swallows-anything", edit_pattern("ExperimentLexer", "ws", r"\s+", "."), r"lex:main~.*(consumes-only-trivia|error)"),
-                contract_canary("none-parse-accepted", "pyab_experiment.experiment_evaluator.ExperimentEvaluator.recompile", "raise ParseError()", "return", r"ensures\.(accepted|switches)")]
+                contract_canary("none-parse-accepted", "pyab_experiment.experiment_evaluator.ExperimentEvaluator.recompile", "raise ParseError()", "return", r"ensures\.(accepted|switches)"),
+                gram_table_canary("accept-state-defaulted", lambda t: t["lr"]["defaulted"].update({"1": 0}), r"lr/defaulted-states"),
+                gram_table_canary("lr-action-perturbed", lambda t: t["lr"]["action"]["0"].update({"ID": 3}), r"lr/tables==")]
 
 
 class C07(Prop):
